@@ -109,6 +109,18 @@ def gen_case(rng, tier):
         n = rng.choice([0, 1, 2, 3, 5, 9])
         labels = rng.sample(range(0, 14), n)
         d = gen_bqm_desc(rng, labels, rng.choice(['SPIN', 'BINARY']), 8, 2)
+
+        def coo_bias(old):
+            # magnitudes from below 1 to 10^6 (one to seven integer digits), both signs, with fractional
+            # parts the %f text prints exactly (quarters); zero biases are kept as generated
+            if Fraction(old) == 0 or rng.random() < 0.35:
+                return old
+            mag = rng.choice([rng.randint(10, 99), rng.randint(100, 9999), rng.randint(10 ** 4, 10 ** 6),
+                              10 ** rng.randint(1, 6), rng.randint(1, 9)])
+            frac = rng.choice([0, 0, Fraction(1, 2), Fraction(1, 4), Fraction(3, 4)])
+            return str(rng.choice([1, -1]) * (mag + frac))
+        d["lin"] = [[l, coo_bias(b)] for l, b in d["lin"]]
+        d["quad"] = [[u, v, coo_bias(b)] for u, v, b in d["quad"]]
         d.update({"kind": "coo", "header": rng.random() < 0.6})
         return d
     if r < 0.52:
